@@ -44,7 +44,7 @@ impl Property for C02 {
         }
     }
     fn rule(&self) -> &'static str {
-        "corpus grid cells (chunk x layout x configuration), plus generated impl / trait blocks holding every kind of associated item in random order (with and without reorder_impl_items, width 30..110) and generated line / doc comments whose lines end near the wrapping boundary under wrap_comments (comment_width 40..100); oracle: fmt(fmt(x)) == fmt(x) byte for byte and the second run reports no error; judged only when the first run reports no error; non-trivial = first run changed the text and some output line is within 3 columns of max_width; distinct by case content"
+        "corpus grid cells (chunk x layout x configuration), plus generated impl / trait blocks holding every kind of associated item in random order (with and without reorder_impl_items, width 30..110) and generated line / doc comments whose lines end near the wrapping boundary under wrap_comments (comment_width 40..100), and vertically aligned struct / struct-literal / enum lists in groups separated by empty or blank-only lines under the alignment thresholds; oracle: fmt(fmt(x)) == fmt(x) byte for byte and the second run reports no error; judged only when the first run reports no error; non-trivial = first run changed the text and some output line is within 3 columns of max_width; distinct by case content"
     }
     fn enum_len(&self, g: &GenCtx) -> usize {
         grid_len(g, 150_000, usize::MAX)
@@ -62,7 +62,13 @@ impl Property for C02 {
     fn generate(&self, c: &mut Choices<'_>, _g: &GenCtx) -> Value {
         // targeted programs: (a) impl / trait blocks with every kind of associated item in a random
         // order, with and without reorder_impl_items; (b) comments whose lines end near the
-        // wrapping boundary under wrap_comments
+        // wrapping boundary under wrap_comments; (c) aligned field / discriminant groups
+        if c.chance(1, 4) {
+            // (c) vertically aligned lists in groups separated by empty or blank-only lines
+            let mut v = crate::props::c03::gen_aligned(c);
+            v["tags"] = json!(["aligned-groups"]);
+            return v;
+        }
         if c.flip() {
             let mut items: Vec<String> = vec![];
             let n = 2 + c.below(7);
